@@ -248,8 +248,9 @@ fn run_op(op: &str, env: &Env, setup: &dyn Fn(usize, &mut Ctl)) -> (Outcome, Vec
             }));
             (o, vec![c])
         }
-        "sign" => {
-            let (mut src, c0) = mk(env.plain.to_vec(), 0);
+        "sign" | "resign" => {
+            // "resign": the source already carries a manifest (it becomes the parent ingredient's provenance)
+            let (mut src, c0) = mk(if op == "resign" { env.signed.to_vec() } else { env.plain.to_vec() }, 0);
             let (mut dst, c1) = mk(Vec::new(), 1);
             let o = catch(AssertUnwindSafe(|| {
                 let mut b = Builder::from_context(ctx(&settings)).with_definition(env.def.to_string().as_str()).map_err(|e| format!("setup:{}", err_kind(&e)))?;
@@ -281,7 +282,8 @@ fn run_op(op: &str, env: &Env, setup: &dyn Fn(usize, &mut Ctl)) -> (Outcome, Vec
                 let mut dst = Cursor::new(Vec::new());
                 match b.sign(s.as_ref(), "image/jpeg", &mut src, &mut dst) {
                     Ok(_) => Ok(read_plain("image/jpeg", dst.get_ref()).unwrap_or_else(|e| format!("unreadable-output:{e}"))),
-                    Err(e) => Err(format!("sign:{}", err_kind(&e))),
+                    // add_ingredient_from_stream returned Ok: that is the outcome at stake, whatever the later signing does
+                    Err(e) => Ok(format!("ingredient-accepted-then-sign-failed:{}", err_kind(&e))),
                 }
             }));
             (o, vec![c])
@@ -321,7 +323,7 @@ pub fn run(args: &[String]) {
     let cap = arg_u64(args, "--cap", 12); // fault positions per (op, format, stream, kind)
     let shorts = arg_u64(args, "--shorts", 3); // chunked runs per (op, format)
     let formats: Vec<String> = arg(args, "--formats").map(|s| s.split(',').map(|x| x.to_string()).collect()).unwrap_or_else(|| FORMATS.iter().map(|f| f.0.to_string()).collect());
-    let ops: Vec<String> = arg(args, "--ops").map(|s| s.split(',').map(|x| x.to_string()).collect()).unwrap_or_else(|| vec!["read".into(), "sign".into(), "ingredient".into(), "hash".into()]);
+    let ops: Vec<String> = arg(args, "--ops").map(|s| s.split(',').map(|x| x.to_string()).collect()).unwrap_or_else(|| vec!["read".into(), "sign".into(), "resign".into(), "ingredient".into(), "hash".into()]);
     let mut rng = StdRng::seed_from_u64(seed ^ 0xC35);
     let mut out = Out::new();
     std::panic::set_hook(Box::new(|_| {}));
@@ -366,8 +368,10 @@ pub fn run(args: &[String]) {
                         continue;
                     }
                     let mut ks: Vec<u64> = if n <= cap { (1..=n).collect() } else {
+                        // first / last calls, then one seeded position in each of the remaining equal strata
                         let mut v: Vec<u64> = vec![1, 2, 3, n - 1, n];
-                        while (v.len() as u64) < cap { v.push(rng.gen_range(1..=n)); }
+                        let strata = cap.saturating_sub(5).max(1);
+                        for j in 0..strata { let lo = 1 + j * n / strata; let hi = ((j + 1) * n / strata).max(lo); v.push(rng.gen_range(lo..=hi)); }
                         v
                     };
                     ks.sort();
